@@ -390,6 +390,64 @@ def run_broken(out, binp, rng, hi):
         shutil.rmtree(work, ignore_errors=True)
         out.write(f"end h={hi} dead=0\n")
 
+def run_malformed(out, binp, rng, hi):
+    """the real executable and requests with malformed client ids / paths / content types on every route: each must get a
+    4xx ANSWER (the middleware `main` adds sees every request before the application does), and the server must survive"""
+    base = os.environ.get('VERIF_SCRATCH', '/dev/shm')
+    work = tempfile.mkdtemp(prefix='tcsc17m', dir=base if os.path.isdir(base) else None)
+    datadir = os.path.join(work, 'data')
+    port = free_ports(1)[0]
+    proc = None
+    try:
+        log = rng.choice(['error', 'info', 'debug', ''])
+        out.write(f"run h={hi} setup=binary-malformed backend=sql entry=http binary=1 days=14 versions=100 allow=none clients=\n")
+        proc = start(binp, ['--listen', f'127.0.0.1:{port}', '--data-dir', datadir], {}, quiet=True, log=log)
+        if not wait_ports(proc, [port]):
+            out.write("# startup failed\n")
+            return
+        c = str(uuid.UUID(int=rng.getrandbits(128), version=4))
+        s = Sess(out, port)
+        st, h, _ = s.call("i=1 op=av", 'POST', f'/v1/client/add-version/{NIL}', [('Content-Type', HS_CT), ('X-Client-Id', c)], b'A')
+        v = h.get('x-version-id', NIL)
+        ids = ['', 'a', 'abc', '1234567', '12345678', c[:-1], c + '0', c.replace('-', ''), '{' + c + '}', 'urn:uuid:' + c, c.upper(), 'not-a-uuid-at-all-not-a-uuid-at-all', ' ' + c, c + ' ', 'z' * 36, '\u00e9' * 4]
+        routes = [('GET', f'/v1/client/get-child-version/{v}', [], b''), ('POST', f'/v1/client/add-version/{v}', [('Content-Type', HS_CT)], b'B'),
+                  ('POST', f'/v1/client/add-snapshot/{v}', [('Content-Type', SNAP_CT)], b'S'), ('GET', '/v1/client/snapshot', [], b''), ('GET', '/', [], b'')]
+        k = 1
+        # forms `Uuid::parse_str` accepts (simple, braced, urn, upper case) and surrounding blanks (trimmed by HTTP) may be served
+        lenient = {c.replace('-', ''), '{' + c + '}', 'urn:uuid:' + c, c.upper(), ' ' + c, c + ' '}
+        for cid in ids:
+            meth, path, hdrs, body = routes[rng.randrange(len(routes))]
+            k += 1
+            out.write(f"# i={k} op=malformed cid={hexs(cid.encode())} route={path.split('/')[3] if path.count('/') > 2 else 'index'} want={'2xx-or-4xx' if path == '/' or cid in lenient else '4xx'}\n")
+            try:
+                stt, hh, data = http_req(port, meth, path, hdrs + [('X-Client-Id', cid.encode('utf-8').decode('latin-1'))], body)
+                out.write('x' + req_line(meth, path, hdrs, body, '-', int(time.time())) + ' => ' + obs_line(stt, hh, data) + '\n')
+            except Exception as e:
+                out.write('x' + req_line(meth, path, hdrs, body, '-', int(time.time())) + f' => noanswer:{type(e).__name__}\n')
+        # bad path ids and content types under a good client id
+        for (meth, path, hdrs, body) in [('GET', '/v1/client/get-child-version/xyz', [('X-Client-Id', c)], b''), ('POST', f'/v1/client/add-version/{v}', [('Content-Type', 'text/plain'), ('X-Client-Id', c)], b'B'),
+                                         ('POST', f'/v1/client/add-snapshot/{v}', [('Content-Type', SNAP_CT), ('X-Client-Id', c)], b''), ('DELETE', '/v1/client/snapshot', [('X-Client-Id', c)], b'')]:
+            k += 1
+            out.write(f"# i={k} op=malformed cid=ok route=other want=4xx\n")
+            try:
+                stt, hh, data = http_req(port, meth, path, hdrs, body)
+                out.write('x' + req_line(meth, path, hdrs, body, '-', int(time.time())) + ' => ' + obs_line(stt, hh, data) + '\n')
+            except Exception as e:
+                out.write('x' + req_line(meth, path, hdrs, body, '-', int(time.time())) + f' => noanswer:{type(e).__name__}\n')
+        # the server is still there and still serves what it had
+        k += 1
+        out.write(f"# i={k} op=alive want=200\n")
+        try:
+            stt, hh, data = http_req(port, 'GET', f'/v1/client/get-child-version/{NIL}', [('X-Client-Id', c)], b'')
+            out.write('x' + req_line('GET', f'/v1/client/get-child-version/{NIL}', [('X-Client-Id', c)], b'', '-', int(time.time())) + ' => ' + obs_line(stt, hh, data) + '\n')
+        except Exception as e:
+            out.write(f"xhttp GET /alive 0 0 - 0 => noanswer:{type(e).__name__}\n")
+    finally:
+        if proc is not None and proc.poll() is None:
+            proc.kill(); proc.wait()
+        shutil.rmtree(work, ignore_errors=True)
+        out.write(f"end h={hi} dead=0\n")
+
 def run_crashbin(out, binp, rng, hi):
     """the real executable, killed while several clients are adding versions concurrently (so that the write-ahead log holds
     committed, not yet checkpointed transactions), and restarted through its own `main`: every acknowledged version must
@@ -457,7 +515,7 @@ def main(out_path, seed, first, n, mode='config'):
     with open(out_path, 'w') as out:
         for hi in range(first, first + n):
             rng = random.Random(seed * 1000003 + hi)
-            {'broken': run_broken, 'crashbin': run_crashbin}.get(mode, run_config)(out, binp, rng, hi)
+            {'broken': run_broken, 'crashbin': run_crashbin, 'malformed': run_malformed}.get(mode, run_config)(out, binp, rng, hi)
 
 if __name__ == '__main__':
     build_binary()
